@@ -968,8 +968,7 @@ class list_t(object):
         elif self.is_scalar:
             # Working with a scalar
             f = model.add_field()
-            mask_v = int(v) & self.mask
-            f.set_val(mask_v)
+            f.set_val(self._elem_val(v))
         else:
             if not issubclass(type(v), type(self.t)):
                 raise Exception("Attempting to append illegal element to object array")
@@ -977,6 +976,15 @@ class list_t(object):
             model.append(v.get_model())
             # Propagate randomization information
             v.get_model().is_declared_rand = self.get_model().is_declared_rand
+            
+    def _elem_val(self, v):
+        """The value an element of a scalar list holds: masked to the element 
+        width, in two's complement reading for a signed element type (what a 
+        scalar field holds, and what a solve writes)"""
+        v = int(v) & self.mask
+        if self.t.is_signed and (v & (1 << (self.t.width-1))) != 0:
+            v -= (1 << self.t.width)
+        return v
             
     def extend(self, v):
         for vi in v:
@@ -1100,7 +1108,7 @@ class list_t(object):
             self.get_model().field_l[k].set_val(val)
         elif self.is_scalar:
             self.get_model().field_l[k].set_val(
-                ValueScalar(int(v) & (1 << self.t.width)-1))
+                ValueScalar(self._elem_val(v)))
         else:
             self.backing_arr[k] = v
             
